@@ -73,6 +73,7 @@ def units(tier, seed):
     for ks in DICT_SETS:
         for perm in itertools.permutations(range(len(ks))):
             us.append({"part": "kernel", "model": "dict", "kernels": [ks[i] for i in perm], "dev2": 1 if tier == "quick" else 2})
+    us.append({"part": "distreg", "seed": seed})
     for es in ENGINE_SETS[: 2 if tier == "quick" else 3]:
         us.append({"part": "engine", "cfg": es, "seed": seed})
     return us
@@ -293,10 +294,94 @@ def run_engine_unit(res, unit):
     jax.clear_caches()
 
 
+def run_distreg_unit(res, unit):
+    """The built-in Gibbs kernel for a smoothing variance (liesel.model.distreg.tau2_gibbs_kernel):
+    its draw must be a function of the model state it is handed - not of what the user's model
+    object holds. Lattice: every combination of {state, model object} x {a, b, beta, K} variants."""
+    import jax
+    import jax.numpy as jnp
+    import tensorflow_probability.substrates.jax.distributions as tfd
+    import tensorflow_probability.substrates.jax.bijectors as tfb
+    import liesel.goose as gs
+    from liesel.goose.epoch import EpochConfig, EpochType
+    from liesel.model.distreg import DistRegBuilder, tau2_gibbs_kernel
+
+    rng = np.random.RandomState(3)
+    n, p = 12, 3
+    X = rng.normal(size=(n, p)).astype(np.float32)
+    D = np.diff(np.eye(p), axis=0)
+    K0 = (D.T @ D).astype(np.float32)
+    y = rng.normal(size=n).astype(np.float32)
+    bld = DistRegBuilder()
+    bld.add_response(y, tfd.Normal)
+    bld.add_predictor("loc", tfb.Identity)
+    bld.add_predictor("scale", tfb.Exp)
+    bld.add_np_smooth(X, K0, 2.0, 0.5, "loc", name="s")
+    model = bld.build_model()
+    group = model.groups()["s"]
+    kernel = tau2_gibbs_kernel(group)
+    interface = gs.LieselInterface(model)
+    kernel.set_model(interface)
+    names = {k: group[k].name for k in ("a", "b", "beta", "K", "tau2")}
+    base = {"a": 2.0, "b": 0.5, "beta": np.array([0.3, -0.2, 0.6], np.float32), "K": K0}
+    alt = {"a": 3.5, "b": 1.75, "beta": np.array([1.0, 0.5, -1.5], np.float32), "K": (2.0 * K0 + np.eye(p)).astype(np.float32)}
+    state0 = model.state
+    epoch = EpochConfig(EpochType.POSTERIOR, 10, 1, None).to_state(0, 0)
+    key = jax.random.PRNGKey(unit.get("seed", 0) + 5)
+    rank = float(np.linalg.matrix_rank(K0))
+    outcomes = set()
+    for in_state in itertools.product([0, 1], repeat=4):
+        for in_model in itertools.product([0, 1], repeat=4):
+            sv = {k: (alt if f else base)[k] for k, f in zip(("a", "b", "beta", "K"), in_state)}
+            mv = {k: (alt if f else base)[k] for k, f in zip(("a", "b", "beta", "K"), in_model)}
+            case = {"state_variant": in_state, "model_object_variant": in_model}
+            try:
+                model.state = state0
+                ms = interface.update_state({names[k]: jnp.asarray(v) for k, v in sv.items()}, state0)
+                # what the user's model object happens to hold when the transition runs
+                for k, v in mv.items():
+                    group[k].value = v
+                ks = kernel.init_state(key, ms)
+                out = kernel.transition(key, ks, ms, epoch)
+                got = float(interface.extract_position([names["tau2"]], out.model_state)[names["tau2"]])
+            except Exception as exc:
+                if core.raised_in_repo(exc):
+                    res.violation("distreg", "tau2-gibbs-raises", case, f"{type(exc).__name__}: {exc}")
+                    return
+                raise
+            res.executions += 1
+            res.transitions += 1
+            a_g = sv["a"] + 0.5 * rank
+            b_g = float(sv["b"] + 0.5 * (sv["beta"].astype(np.float64) @ sv["K"].astype(np.float64) @ sv["beta"].astype(np.float64)))
+            ref = b_g / float(jax.random.gamma(key, jnp.float32(a_g)))
+            outcomes.add(round(got, 5))
+            res.outcome("distreg", in_state)
+            if not np.isclose(got, ref, rtol=2e-4):
+                res.violation("distreg", "tau2-gibbs-not-a-function-of-the-model-state", case,
+                              f"tau2 draw {got:.6g}; the full conditional given the model state handed over gives {ref:.6g} "
+                              f"(state a={sv['a']}, b={sv['b']}; model object a={mv['a']}, b={mv['b']})")
+                return
+            # the stored log-prob of the state after the draw is coherent
+            lp = float(out.model_state["_model_log_prob"].value)
+            model.state = out.model_state
+            model.update()
+            if not np.isclose(lp, float(model.log_prob), rtol=2e-4, atol=TOL):
+                res.violation("distreg", "tau2-gibbs-incoherent-state", case, f"stored model log-prob {lp} but recomputation gives {float(model.log_prob)}")
+                return
+    res.states += len(outcomes)
+    res.note(["distreg-tau2-gibbs", len(outcomes)])
+    res.sample({"distreg": "tau2_gibbs_kernel", "distinct_draws": len(outcomes)})
+    if len(outcomes) < 16:
+        raise RuntimeError(f"vacuous distreg lattice: {len(outcomes)} distinct draws")
+    jax.clear_caches()
+
+
 def run_unit(unit):
     core.assert_repo()
     res = core.UnitResult(unit)
-    if unit["part"] == "kernel":
+    if unit["part"] == "distreg":
+        run_distreg_unit(res, unit)
+    elif unit["part"] == "kernel":
         run_kernel_unit(res, unit)
     else:
         run_engine_unit(res, unit)
